@@ -255,9 +255,24 @@ template <class S, std::size_t N> void closed_forms()
           {
             vrt::nontrivial(base > 5 || content > 0xffffu);
             auto const got = g::range_dim(fmin, fsup);
-            for (std::size_t i = 0; i < N; ++i)
-              VRT_CHECK(u128(got.get_unsafe(i)) == (nonempty ? ext[i] : u128(0)), fd + ":wrong", "axis %zu: got %s want %s", i,
-                        show_u(got.get_unsafe(i)).c_str(), show_u(nonempty ? ext[i] : u128(0)).c_str());
+            if (nonempty)
+            {
+              for (std::size_t i = 0; i < N; ++i)
+                VRT_CHECK(u128(got.get_unsafe(i)) == ext[i], fd + ":wrong", "axis %zu: got %s want %s", i, show_u(got.get_unsafe(i)).c_str(), show_u(ext[i]).c_str());
+            }
+            else
+            {
+              // an empty range has a dimension without cells; that every component is 0 (today's answer) is not documented
+              bool some_zero = false, all_zero = true;
+              for (std::size_t i = 0; i < N; ++i)
+              {
+                some_zero = some_zero || got.get_unsafe(i) == 0;
+                all_zero = all_zero && got.get_unsafe(i) == 0;
+              }
+              VRT_CHECK(some_zero, fd + ":empty_range_not_empty", "the dimension of an empty range has cells");
+              if (!all_zero)
+                vrt::count("info:" + fd + ":empty_range_not_null");
+            }
           }
           if ((fits || !nonempty) && vrt::begin_text(fs.c_str(), fs + d))
           {
